@@ -999,8 +999,38 @@ func (e *c16Env) declareUniqueOverDuplicates(nLive int) {
 	e.r.Count("declare-unique-over-duplicates")
 }
 
+// reimport: the gov module's state goes through ExportGenesis -> InitGenesis (in place, see World.ReimportGovInPlace),
+// as at a restart from an exported genesis; the registry must come back as it was and go on behaving as before.
+func (e *c16Env) reimport() {
+	r := e.r
+	pre := e.snap()
+	failed := e.w.ReimportGovInPlace(e.ctx)
+	out := "ok"
+	if failed != nil {
+		out = "panic"
+	}
+	post := e.snap()
+	line := "ident reimport"
+	r.Op(line, out)
+	e.history = append(e.history, line)
+	r.Op(e.accLine, post.String())
+	r.Count("reimport:" + out)
+	r.Count("oracle:C16/reimport")
+	if failed == nil {
+		// the property's own view: every record, with its owner, value and verifiers, and every pending request with its
+		// escrowed tip, is what it was
+		if len(pre.recs) != len(post.recs) || len(pre.reqs) != len(post.reqs) {
+			r.Fail("C16/reimport/records-or-requests-lost", fmt.Sprintf("export + import of the gov state changed the registry: %d records / %d requests before, %d / %d after", len(pre.recs), len(pre.reqs), len(post.recs), len(post.reqs)), e.hist())
+		}
+	}
+}
+
 func (e *c16Env) randomOp(nLive int) {
 	rng := e.r.Rng
+	if rng.Intn(60) == 0 {
+		e.reimport()
+		return
+	}
 	if rng.Intn(25) == 0 {
 		e.requestThenTouch(nLive)
 		return
